@@ -53,12 +53,31 @@ def extent_registry(prog):
     return reg
 
 
-def r_idx_guard(ctx, prog, scope_units=None, floor=10):
+def le_relation(prog):
+    """pairs (A, T) of member names with A <= T, from stores T = A + B of members of the same object (symbol counts: the sum
+    is validated not to wrap)."""
+    le = set()
+    for f in prog.all_functions:
+        tt = Terms(f, forward=False)
+        for i in f.all_insts():
+            if i.op != 'store':
+                continue
+            a = tt.term(i.ops[1])
+            v = tt.term(i.ops[0])
+            if a[0] == 'field' and v[0] == 'bin' and v[1] == 'add':
+                for x in (v[2], v[3]):
+                    if x[0] in ('load', 'load@') and x[1][0] == 'field' and x[1][1] == a[1]:
+                        le.add((x[1][2], a[2]))
+    return le
+
+
+def r_idx_guard(ctx, prog, scope_units=None, floor=1):
     R = 'R-IDX-GUARD'
     ctx.rule(R, 'whenever an index into a member array is guarded against a member of the same object, the guard is strict (<) and '
              'against the member that holds the array\'s allocated extent (registry built from the allocation sites); unguarded and '
              'data-dependent indices are counted as unanalysed, not judged', floor=floor)
     reg = extent_registry(prog)
+    le = le_relation(prog)
     ctx.need(len(reg) >= 6, R, 'extent registry has only %d entries' % len(reg))
     unanalysed = 0
     judged = 0
@@ -85,11 +104,15 @@ def r_idx_guard(ctx, prog, scope_units=None, floor=10):
                         if x == idx and y[0] in ('load', 'load@') and y[1][0] == 'field' and y[1][1] == base:
                             rel.append((pred, y[1][2]))
                 upper = [(p, g) for (p, g) in rel if p in ('ult', 'ule', 'slt', 'sle')]
+                # only guards against a dimension are bounds: the array's own extent, a member known <= it, or the extent of
+                # another array (the wrong dimension); comparisons with unrelated members (counters) say nothing about bounds
+                dims = set(reg.values())
+                upper = [(p, g) for (p, g) in upper if g == G or (g, G) in le or g in dims]
                 if not upper:
                     unanalysed += 1
                     continue
                 judged += 1
-                good = any(p in ('ult', 'slt') and g == G for (p, g) in upper)
+                good = any(p in ('ult', 'slt') and (g == G or (g, G) in le) for (p, g) in upper)
                 ctx.instance(R, good, i, '%s:%s[%s]' % (f.name, F, _short(idx)),
                              '%s indexes %s (allocated with %s elements) under the guard(s) %s: the index is admitted by a non-strict '
                              'bound or by the wrong dimension' % (f.name, F, G, ', '.join('%s %s' % pg for pg in upper)))
@@ -135,7 +158,7 @@ def r_dlink(ctx, prog):
     R = 'R-DLINK'
     ctx.rule(R, 'every sparse-matrix routine that takes a fresh entry links it in both dimensions (its six members set, both row '
              'neighbours and both column neighbours pointed back at it) before returning it; delete unlinks in both dimensions and '
-             'pushes the entry on the free list', floor=3)
+             'pushes the entry on the free list', floor=1)
     u = [x for x in prog.units if x.name == 'of_matrix_sparse.c']
     ctx.need(u, R, 'unit of_matrix_sparse.c missing')
     n = 0
@@ -203,7 +226,7 @@ def r_dlink(ctx, prog):
 def r_wordgeom(ctx, prog):
     R = 'R-WORDGEOM'
     ctx.rule(R, 'dense matrix bit addressing: word index = col >> S, bit index = col & M with M + 1 = 1 << S = bit width of a matrix '
-             'word, in get/set/flip; the allocator computes n_words = (n_cols + M) >> S with the same S and M', floor=4)
+             'word, in get/set/flip; the allocator computes n_words = (n_cols + M) >> S with the same S and M', floor=1)
     for name in ('of_mod2dense_get', 'of_mod2dense_set', 'of_mod2dense_flip'):
         f = prog.need_fn(name, R)
         tt = Terms(f)
@@ -331,7 +354,7 @@ def r_rowcol_symmetry(ctx, prog):
     the wanted column and of an entry's row with the wanted row use the same predicates the same number of times."""
     R = 'R-ROWCOL-SYMMETRY'
     ctx.rule(R, 'sibling agreement inside the sparse matrix: the row-dimension and column-dimension searches of find/insert compare '
-             'with the same predicates', floor=2)
+             'with the same predicates', floor=1)
     from .ir import SWAP
     u = [x for x in prog.units if x.name == 'of_matrix_sparse.c']
     ctx.need(u, R, 'unit missing')
@@ -381,7 +404,7 @@ def r_blockchain(ctx, prog):
 def r_scratch_reset(ctx, prog):
     R = 'R-SCRATCH-RESET'
     ctx.rule(R, 'the solver\'s scratch list (tmp_tab_symbols / nb_tmp_symbols) is emptied before it is filled: every append is '
-             'dominated by a reset of the counter in the same routine, and no reset lies between an append and its consumer', floor=2)
+             'dominated by a reset of the counter in the same routine, and no reset lies between an append and its consumer', floor=1)
     n = 0
     for f in prog.all_functions:
         tt = Terms(f)
@@ -402,7 +425,7 @@ def r_scratch_reset(ctx, prog):
 def r_dense_rowfill(ctx, prog):
     R = 'R-DENSE-ROWFILL'
     ctx.rule(R, 'every dense-matrix routine that overwrites the words of a destination row in a loop writes it up to the destination\'s '
-             'own word count (a row is never left with stale words beyond a narrower source)', floor=3)
+             'own word count (a row is never left with stale words beyond a narrower source)', floor=1)
     n = 0
     for f in prog.all_functions:
         if f.unit.name != 'of_matrix_dense.c':
